@@ -202,7 +202,7 @@ class Sim(object):
         self.tmpdir = None
         if store_url == "":
             import tempfile, atexit, shutil
-            self.tmpdir = tempfile.mkdtemp(prefix="lsfsim-")
+            self.tmpdir = tempfile.mkdtemp(prefix="lsfsim-", dir="/dev/shm" if os.access("/dev/shm", os.W_OK) else None)
             atexit.register(shutil.rmtree, self.tmpdir, True)
             store_url = os.path.join(self.tmpdir, "ASL_store.json")
         self.store_url = store_url
